@@ -50,12 +50,12 @@ def mant(v, bits=26):
     return [mi, e - bits]
 
 
-def relayout(a, h):
+def relayout(a, h, containers=False):
     """the same values in another storage layout / dtype (chosen by h): C, Fortran, strided view, float32 or integer when exact, nested list, pandas Series / DataFrame.
     Used by the replays: a function of array-like data must not depend on how the caller stores the numbers."""
     import numpy as np
     a = np.asarray(a)
-    k = h % 7
+    k = h % 7 if containers else h % 5        # containers: also non-array containers (callers go through try_layout)
     if k == 5:
         return a.tolist()                      # plain (nested) Python list
     if k == 6:
